@@ -25,6 +25,17 @@ type c10Case struct {
 
 func init() { register("C10", "exploration", runC10, replayC10) }
 
+func dupNames(v []string) bool {
+	seen := map[string]bool{}
+	for _, n := range v {
+		if seen[n] {
+			return true
+		}
+		seen[n] = true
+	}
+	return false
+}
+
 func countsRaw(m map[string]int) map[string]interface{} {
 	out := map[string]interface{}{}
 	for k, v := range m {
@@ -225,6 +236,45 @@ func c10Eval(c *ctx, cs c10Case) {
 		}
 		if !c10Compare(c, cs, "one-step", got, want, filledAny) {
 			return
+		}
+		// round 10: the SAME template object is then expanded with OTHER counts (what was n becomes 0 or is left out, an
+		// ellipsis left alone the first time is filled now): the second expansion is the one a fresh template gives
+		if ells := ellipsisNames(tplVars); len(ells) > 0 {
+			r2 := rng.New(rng.HashStr(key) ^ 0x10a)
+			for round := 0; round < 2; round++ {
+				counts2 := map[string]int{}
+				for _, e := range ells {
+					n, was := cs.Counts[e]
+					switch {
+					case was && n > 0 && r2.Chance(1, 2):
+						counts2[e] = 0
+					case was && n > 0:
+						// left out this time
+					case was:
+						counts2[e] = 1 + r2.Intn(2)
+					case r2.Chance(2, 3):
+						counts2[e] = r2.Intn(3)
+					}
+				}
+				if expandedNodes(cs.Tpl, counts2) > 4000 {
+					continue
+				}
+				want2 := ref.Expand(cs.Tpl, counts2)
+				if dupNames(want2.Vars()) || ref.EllipsisNamesOK(want2.Vars(), false) != "" {
+					continue // these counts would make two names collide; not part of the quantified domain
+				}
+				cs2 := cs
+				cs2.Counts = counts2
+				var got2 ast.ItemNode
+				if o := real.Try(func() { got2 = tpl.FillVariables(countsRaw(counts2)) }); o.Panicked {
+					c.Violation("C10/expansion-refused/second-expansion-of-one-template-with-other-counts", fmt.Sprintf("%s; template %s first counts %v then %v", o, clipS(ref.Print(cs.Tpl)), cs.Counts, counts2), cs2)
+					return
+				}
+				c.Class("second-expansion-of-one-template-with-other-counts")
+				if !c10Compare(c, cs2, "second-expansion-with-other-counts(first:"+fmt.Sprint(len(cs.Counts))+")", got2, want2, len(counts2) > 0) {
+					return
+				}
+			}
 		}
 		if !filledAny && !real.EqStrs(got.Variables(), tplVars) {
 			// keys that name no ellipsis of the template are ignored: nothing is renamed or renumbered
@@ -699,7 +749,7 @@ func runC10(c *ctx) {
 		c.Class("expansion-after-a-refused-fill")
 		c10Eval(c, c10Case{Tpl: probe, Counts: map[string]int{"...": 1 + rep}})
 	}
-	c.Required = []string{"colliding-expansion/refused", "array-like-names-in-a-repeated-group", "expansion-after-a-refused-fill", "many-remaining-ellipses", "one-step", "two-step", "individual-fill", "counts-and-generated-names-in-one-call", "random-template", "nothing-to-expand"}
+	c.Required = []string{"second-expansion-of-one-template-with-other-counts", "colliding-expansion/refused", "array-like-names-in-a-repeated-group", "expansion-after-a-refused-fill", "many-remaining-ellipses", "one-step", "two-step", "individual-fill", "counts-and-generated-names-in-one-call", "random-template", "nothing-to-expand"}
 }
 
 func replayC10(c *ctx, raw json.RawMessage) {
